@@ -42,7 +42,7 @@
 #define MAX_IDATTR 8
 
 static const char *opt_output, *opt_node_id, *opt_node_xpath, *opt_xml_data;
-static const char *opt_session_key, *opt_enabled_uris, *opt_enabled_key_data;
+static const char *opt_session_key, *opt_enabled_uris, *opt_enabled_key_data, *opt_cipher_ref_uris, *opt_retrieval_uris;
 static const char *log_key_used = "";   /* verify: "given" = the key loaded from the command line verified, "keyinfo" = another one (from the document) */
 static xmlSecKeyPtr given_key = NULL;
 static const char *opt_privkey_pem, *opt_pubcert_pem, *opt_pubcert_der, *opt_pubkey_pem;
@@ -490,6 +490,13 @@ static int do_decrypt(xmlSecKeysMngrPtr mngr) {
     int rc = 1;
     if (doc == NULL) return 1;
     if (xmlSecEncCtxInitialize(&ctx, mngr) < 0) { xmlFreeDoc(doc); return 1; }
+    /* as in the xmlsec1 program: these reach the EncryptedData being decrypted and the RetrievalMethods met on the way to its key, not
+     * the CipherReference of an EncryptedKey (that one is processed in a context of its own with the library's defaults) */
+    if ((opt_cipher_ref_uris && parse_uri_types(opt_cipher_ref_uris, &ctx.transformCtx.enabledUris) < 0) ||
+        (opt_retrieval_uris && parse_uri_types(opt_retrieval_uris, &ctx.keyInfoReadCtx.retrievalMethodCtx.enabledUris) < 0)) {
+        fprintf(stderr, "Error: failed to parse uri types\n");
+        xmlSecEncCtxFinalize(&ctx); xmlFreeDoc(doc); return 1;
+    }
     if (xmlSecEncCtxDecrypt(&ctx, start) < 0 || ctx.result == NULL) {
         fprintf(stderr, "Error: failed to decrypt file\n");
         fprintf(stderr, "Error: failed to decrypt file \"%s\"\n", input_file);
@@ -572,6 +579,8 @@ int main(int argc, char **argv) {
         else if (!strcmp(a, "--xml-data")) { NEED(); opt_xml_data = argv[++i]; }
         else if (!strcmp(a, "--session-key")) { NEED(); opt_session_key = argv[++i]; }
         else if (!strcmp(a, "--enabled-reference-uris")) { NEED(); opt_enabled_uris = argv[++i]; }
+        else if (!strcmp(a, "--enabled-cipher-reference-uris")) { NEED(); opt_cipher_ref_uris = argv[++i]; }
+        else if (!strcmp(a, "--enabled-retrieval-method-uris")) { NEED(); opt_retrieval_uris = argv[++i]; }
         else if (!strcmp(a, "--enabled-key-data")) { NEED(); opt_enabled_key_data = argv[++i]; }
         else if (!strcmp(a, "--privkey-pem")) { NEED(); opt_privkey_pem = argv[++i]; }
         else if (!strcmp(a, "--pubkey-pem")) { NEED(); opt_pubkey_pem = argv[++i]; }
